@@ -231,6 +231,7 @@ func c14Round6(ctx *core.Ctx) {
 
 // c19Round6: what ScanDir asks MatchFile about, and when a line counts as blank.
 func c19Round6(ctx *core.Ctx) {
+	c19PlusLines(ctx)
 	p := ctx.P
 	ctx.Rule("B11", "MatchFile judges file names: every call of MatchFile in package imports passes the directory entry's base name (the result of Name()), not a path - MatchFile cuts at the first dot, and a dot in a directory name hides the GOOS/GOARCH suffix", 1)
 	mf := p.Func("imports", "MatchFile")
@@ -281,6 +282,82 @@ func c19Round6(ctx *core.Ctx) {
 	})
 	if k == 0 {
 		ctx.Note("B12", "imports.ShouldBuild#header-end", sb.Pos(), "no 'len(content) - len(rest)' header-end computation found; clause not decided")
+	}
+}
+
+// c19PlusLines (B13): every comment line that starts with '+' is looked at.
+func c19PlusLines(ctx *core.Ctx) {
+	p := ctx.P
+	ctx.Rule("B13", "every +line is read: in the pass of ShouldBuild that evaluates constraints, a line goes to the next one without having been split into fields only if it is not a // comment, is empty after the slashes, or does not start with '+' - no other condition (a minimum length, say) may let a bare '// +build' slip through as if it were prose", 1)
+	sb := p.Func("imports", "ShouldBuild")
+	if sb == nil {
+		return
+	}
+	g := graph(p, sb)
+	n := 0
+	for _, fc := range g.Calls("strings.Fields", "bytes.Fields") {
+		l, ok := innermostLoop(g, fc.Block().Index)
+		if !ok {
+			continue
+		}
+		n++
+		hdr := l.Header
+		first := sb.Blocks[hdr].Instrs[0]
+		isLineLen := func(v ssa.Value) bool {
+			c, ok := v.(*ssa.Call)
+			return ok && isBuiltinCall(c, "len")
+		}
+		stopEdge := func(pb, sbk int, extra []ssax.Fact) bool {
+			facts := append(g.EdgeFacts(pb, sbk), extra...)
+			// only the fact made on this very edge counts
+			ef, has := g.EdgeFact(pb, sbk)
+			if !has {
+				return false
+			}
+			one := []ssax.Fact{ef}
+			_ = facts
+			// not a comment line
+			if hasFact(one, false, func(v ssa.Value) bool {
+				if c, ok := v.(*ssa.Call); ok && (ssax.CalleeName(&c.Call) == "bytes.HasPrefix" || ssax.CalleeName(&c.Call) == "strings.HasPrefix") {
+					return true
+				}
+				_, idx, ok := cutCall(v, "CutPrefix")
+				return ok && idx == 1
+			}) {
+				return true
+			}
+			// empty after the slashes
+			if cmpFact(one, token.EQL, isLineLen, isConstIntV(0)) || cmpFact(one, token.LEQ, isLineLen, isConstIntV(0)) || cmpFact(one, token.LSS, isLineLen, isConstIntV(1)) {
+				return true
+			}
+			// does not start with '+'
+			if cmpFact(one, token.NEQ, anyVal, isConstIntV('+')) {
+				return true
+			}
+			// the loop's own exit (input exhausted)
+			if !l.Blocks[sbk] {
+				return true
+			}
+			return false
+		}
+		escape := ""
+		for _, s0 := range g.Succs[hdr] {
+			if !l.Blocks[s0] {
+				continue
+			}
+			if hit, ok := pathAvoiding(g, hdr, s0, func(i ssa.Instruction) bool {
+				if _, isRet := i.(*ssa.Return); isRet {
+					return true
+				}
+				return i == first
+			}, func(i ssa.Instruction) bool { return i == ssa.Instruction(fc) }, stopEdge); ok {
+				escape = "a line can be passed over without being split (path ends at " + p.Pos(hit.Pos()) + ")"
+			}
+		}
+		ctx.Check(escape == "", "B13", "imports.ShouldBuild#plus-lines"+itoa(n), fc.Pos(), "the only ways past a line without splitting it are: not a comment, empty, not starting with '+' %s", escape)
+	}
+	if n == 0 {
+		ctx.Note("B13", "imports.ShouldBuild#plus-lines", sb.Pos(), "ShouldBuild does not split lines into fields inside a loop; clause not decided")
 	}
 }
 
